@@ -371,6 +371,12 @@ def run_step(head, end):
     timer = And(Not(mr.isnone), Or(lu.isnone, t - lu.val >= mr.val))
     return [
         ("C01.advance_one_period", b._iteration == t + 1),
+        # nobody stays connected into (or beyond) its departure period: an occupant's Unplug is pending at its departure, and nothing of period t
+        # or earlier is pending any more
+        ("C01.whoever_is_connected_at_the_end_of_a_period_departs_later", FA([z3.Const("ck!rs", IdSort)], z3.Implies(
+            z3.And(z3.Select(a.network._EVSEs._v.dom, z3.Const("ck!rs", IdSort)), _occ_at(end, a.network, z3.Const("ck!rs", IdSort)) != 0),
+            _dep(end, _occ_at(end, a.network, z3.Const("ck!rs", IdSort))) > t),
+            patterns=[z3.Select(a.network._EVSEs._v.arrs[0], z3.Const("ck!rs", IdSort))])),
         ("C05.at_most_once_per_period", Or(grew, cb.len == ca.len)),
         ("C05.invoked_iff_event_or_timer_or_owed", grew == Or(had_event, a._resolve, timer)),
         ("C05.invocation_recorded_for_this_period", Implies(grew, cb[ca.len] == t)),
